@@ -40,3 +40,14 @@ check(
     'Bounds as reported; the history property is established inductively over explored edges from LOCKED initial doors.',
     'DESIGN.md 3/C10',
 )
+check(
+    'C11',
+    'complete enumeration of every random outcome (scripted ChoiceRng choice tree) per layout, compared as outcome SETS with an order-agnostic nondeterministic reference model; numpy conformance replay',
+    'For every obstacle layout (<=3 obstacles, <=2 other cells, shapes up to 3x3 and 3x4/4x3) the set of final grids '
+    'over all random resolutions (obstacle identity tracked) must equal what the rules allow: contained in the union '
+    'over processing orders and containing all outcomes of at least one order. For every telepod layout (<=4 telepods, '
+    '2 colours) and agent cell the outcome set equals the other same-coloured telepods; unpaired telepods do not move '
+    'the agent and do not raise. Each layout is also replayed with real numpy seeds through a recording proxy.',
+    'The scripted generator models choice/integers/shuffle/random only; bound to numpy by conformance replays.',
+    'DESIGN.md 3/C11',
+)
